@@ -5,6 +5,25 @@ which the real function and the proved-against-the-specification model differ is
 statement.  Property failures the library sees on REAL outputs (e.g. an emphasis stream that is not well nested) carry the document."""
 import time
 
+P = "pymarkdown/"
+SRC = {
+    "emphasis": [P + "inline/emphasis_helper.py", P + "tokens/special_text_markdown_token.py", P + "general/constants.py"],
+    "linkrecog": [P + "links/link_parse_helper.py", P + "links/link_reference_definition_parse_helper.py", P + "general/parser_helper.py",
+                  P + "inline/inline_backslash_helper.py", P + "inline/inline_character_reference_helper.py", P + "inline/inline_helper.py",
+                  P + "tokens/link_start_markdown_token.py", P + "links/link_create_helper.py", P + "resources/entities.json"],
+    "inlinerecog": [P + "html/html_raw_helper.py", P + "html/html_helper.py", P + "inline/inline_autolink_helper.py",
+                    P + "inline/inline_character_reference_helper.py", P + "inline/inline_backslash_helper.py", P + "inline/inline_backtick_helper.py",
+                    P + "general/parser_helper.py", P + "resources/entities.json"],
+    "gfm": [P + "transform_gfm/*.py", P + "tokens/*.py", P + "general/parser_helper.py"],
+    "tokenrules": [P + "plugins/rule_md_0%s.py" % n for n in ("01", "04", "19", "21", "29", "30", "35", "38", "39", "48")]
+                  + [P + "tokens/*.py", P + "plugin_manager/plugin_scan_context.py", P + "plugin_manager/plugin_manager.py", P + "file_scan_helper.py",
+                     P + "plugin_manager/fix_token_record.py"],
+    "coalesce": [P + "coalesce/coalesce_processor.py", P + "tokens/text_markdown_token.py"],
+    "leafpos": [P + "leaf_blocks/*.py", P + "general/position_marker.py", P + "container_blocks/container_block_leaf_processor.py",
+                P + "container_blocks/container_block_processor.py", P + "general/tab_helper.py", P + "tokens/markdown_token.py"],
+    "bqcount": [P + "block_quotes/block_quote_count_helper.py"],
+}
+
 
 def _store(ctx, key, cov, t0):
     cov["wall_s"] = round(time.time() - t0, 1)
@@ -18,7 +37,7 @@ def _small(d, drop=()):
 def emphasis(ctx):
     import emphlib
     t0 = time.time()
-    r = emphlib.run(ctx, ctx.quick())
+    r = emphlib.run(ctx, ctx.block_quick(SRC["emphasis"]))
     for d in (r.get("disagree") or [])[:3] + (r.get("property_failure_samples") or [])[:3]:
         case = {"doc": d["document"]} if isinstance(d, dict) and d.get("document") is not None else {"emph_request": str(d)[:400]}
         ctx.report(case, "emphasis-" + ",".join(d.get("violated", ["model-mismatch"])) if isinstance(d, dict) else "emphasis-model-mismatch",
@@ -30,7 +49,7 @@ def emphasis(ctx):
 def linkrecog(ctx):
     import linkrecoglib as LR
     t0 = time.time()
-    st = LR.run(ctx, quick=ctx.quick())
+    st = LR.run(ctx, quick=ctx.block_quick(SRC["linkrecog"]))
     n = 0
     for fam, s in st.items():
         if isinstance(s, dict) and s.get("bad") and fam != "tables":
@@ -46,7 +65,7 @@ def linkrecog(ctx):
 def inlinerecog(ctx):
     import inlinerecoglib as IR
     t0 = time.time()
-    r = IR.run(ctx, ctx.quick())
+    r = IR.run(ctx, ctx.block_quick(SRC["inlinerecog"]))
     for b in r["bad"][:3]:
         ctx.report({"inline_request": b["request"]}, "recogniser-mismatch",
                    {"real": b["real"], "model": b["model"], "oracle": "real inline recogniser == Verif.Model.InlineRecog on the same arguments"})
@@ -58,7 +77,7 @@ def inlinerecog(ctx):
 def gfm(ctx):
     import gfmlib
     t0 = time.time()
-    r = gfmlib.run(ctx, ctx.quick())
+    r = gfmlib.run(ctx, ctx.block_quick(SRC["gfm"]))
     for d in (r["disagree"] + r["synthetic_disagree"] + r["illformed_disagree"])[:3]:
         case = {"doc": d["doc"], "extensions": d.get("exts", [])} if isinstance(d, dict) and "doc" in d else {"gfm_request": str(d)[:400]}
         ctx.report(case, "gfm-model-mismatch", {"detail": d, "oracle": "real TransformToGfm().transform(tokens) == Verif.Model.GfmRender.transform on the same serialised stream (HTML byte for byte, is_loose per list)"})
@@ -85,7 +104,7 @@ def tokenrules(ctx):
     """Faithful models of nine token-driven fix-capable rules + the joint pass (Verif.Props.TokenRules) vs the real rule classes."""
     import tokenruleslib
     t0 = time.time()
-    cov = dict(tokenruleslib.run(ctx, ctx.quick()))
+    cov = dict(tokenruleslib.run(ctx, ctx.block_quick(SRC["tokenrules"])))
     dis, nwf = cov.pop("disagreements"), cov.pop("not_wf")
     gaps, retr = cov.pop("transfer_gaps"), cov.pop("transfer_retrigger")
     for d in (dis + nwf)[:3]:
